@@ -15,7 +15,7 @@ RULE = ('per case one generated bundle (CRC type 0/1/2 drawn per block, 0-2 exte
         're-decoded and each CRC recomputed bitwise. One evaluation = one corrupt reception; distinct = (bundle digest, flip).')
 COMPONENTS = bc.COMPONENTS
 PROBES = ('out.secured_checked', 'flip.octet_mask', 'flip.in_primary', 'flip.in_payload_block', 'flip.in_crc_field', 'flip.in_crc_type', 'flip.burst', 'class.malformed', 'class.crc_mismatch',
-          'class.unprotected', 'out.bundles_checked')
+          'class.unprotected', 'out.bundles_checked', 'probe.bulk_block')
 ASSUMPTIONS = ['a corrupted copy that still has valid CRCs everywhere (flip inside a block of CRC type 0) carries no requirement here',
                'schedules and clocks play no role: the deciding dimension is the corruption fault']
 CHUNK = 4
@@ -37,6 +37,12 @@ def gen(ch, tier):
                 window=ch.pick('window', 1 << 16), wsize=48 if tier == 'quick' else 160,
                 bursts=[[ch.pick('b.pos', 1 << 16), 2 + ch.pick('b.len', 15)] for _ in range(4)],
                 secured_output=ch.choice('secout', (None, None, 'bib', 'bcb', 'bib+bcb')))
+    if ch.coin('bulk', 1, 10):
+        # a payload block of more than 64 KiB (length head of five octets), the window placed over the head of that block
+        plan['pay_len'] = ch.choice('bulk.len', (65536, 70000))
+        plan['pay_crc'] = plan['pay_crc'] or 2
+        plan['bulk'] = True
+        plan['secured_output'] = None
     return plan
 
 
@@ -152,7 +158,12 @@ def _mark(har):
 def _drive(run, plan, har):
     probe = base_bundle(plan, 1000)
     nbits = len(probe) * 8
-    if len(probe) <= plan['wsize']:
+    if plan.get('bulk'):
+        # the items in front of the data of the bulk block (type code, number, flags, CRC type, length head) and its first octets
+        first = rfc9171.decode_bundle(probe)['blocks'][-1]['range'][0]
+        positions = list(range(first * 8, (first + 12) * 8))
+        run.stats['probe.bulk_block'] = 1
+    elif len(probe) <= plan['wsize']:
         positions = list(range(nbits))
     else:
         start = (plan['window'] % (len(probe) - plan['wsize'] + 1)) * 8
